@@ -27,46 +27,17 @@ CALLBACK_SETS = {
 
 
 def make_transformer(kind):
-    from lark import Transformer, v_args
-
+    from sim import userobjs
     if kind == 'calc':
-        @v_args(inline=True)
-        class Calc(Transformer):
-            def NUMBER(self, t):
-                return int(t)
-
-            def add(self, a, b):
-                return ('+', a, b)
-
-            def sub(self, a, b):
-                return ('-', a, b)
-
-            def mul(self, a, b):
-                return ('*', a, b)
-
-            def neg(self, a):
-                return ('neg', a)
-
-            def var(self, n):
-                return ('var', str(n))
-
-            def start(self, *xs):
-                return ['prog'] + list(xs)
-        return Calc()
+        return userobjs.Calc()
     raise KeyError(kind)
 
 
 def make_postlex(kind):
-    from lark.indenter import Indenter, PythonIndenter
+    from sim import userobjs
+    from lark.indenter import PythonIndenter
     if kind == 'tree':
-        class TreeIndenter(Indenter):
-            NL_type = '_NL'
-            OPEN_PAREN_types = ['LPAR', 'LSQB']
-            CLOSE_PAREN_types = ['RPAR', 'RSQB']
-            INDENT_type = '_INDENT'
-            DEDENT_type = '_DEDENT'
-            tab_len = 8
-        return TreeIndenter()
+        return userobjs.TreeIndenter()
     if kind == 'python':
         return PythonIndenter()
     raise KeyError(kind)
